@@ -461,8 +461,7 @@ def well_formed(cmds):
             need_who.add(t[1])
         if k in ("new", "cnew") and len(t) > 2:
             kinds[t[1]] = t[2]
-            if stall and t[1] != "zz" and t[2] not in FORWARDERS and t[2] not in STALL_TYPES \
-                    and t[2] not in ("qsrc", "qsink"):
+            if stall and t[1] != "zz" and t[2] not in FORWARDERS and t[2] not in STALL_TYPES:
                 return False          # (a pipe that does not hand requests on can never answer a self-holding one)
         if k == "sub":
             kinds[t[1]] = "sub"
@@ -1231,7 +1230,9 @@ def gen_random(rng, info, quick):
         order[n] = rank
         rank += 1
     np = npipes
-    if rng.chance(1, 3):
+    # (no queue next to a self-holding pipe: a request that has to cross it is only answered after several turns
+    # of both loops, more than the epilogue runs - the pipe would look as if it never went away)
+    if rng.chance(1, 3) and not any(t in STALL_TYPES for t in chosen):
         qsrc = "p%d" % np
         np += 1
         cmds += ["cnew %s qsrc %d" % (qsrc, 1 + rng.below(2)), "who %s" % qsrc]
